@@ -1,4 +1,4 @@
-(* C08-F4 — Tree.rf_distance (python/tskit/trees.py 2972-3016): the set of sample sets
+(* C08-F4 (fixed by e85e341) — Tree.rf_distance (python/tskit/trees.py 2972-3016): the set of sample sets
    below every node of the tree (_get_sample_sets over tree.nodes(), i.e. the nodes under
    the roots), symmetric difference.  Executable definitions only. *)
 From Coq Require Import List ZArith Bool Lia.
@@ -25,15 +25,23 @@ Fixpoint ldedup (l : list (list Z)) : list (list Z) :=
   | x :: t => if existsb (zlist_eqb x) t then ldedup t else x :: ldedup t
   end.
 
-Definition clades_code (p : list Z) (samples : list Z) : list (list Z) :=
+(* PINNED pre-fix code: set(self._get_sample_sets().values()), empty sets included *)
+Definition clades_code_pinned (p : list Z) (samples : list Z) : list (list Z) :=
   ldedup (map (clade p samples) (filter (in_tree p samples) (zseq (length p)))).
-(* the documented notion: bipartitions of the samples, so only non-empty sample sets *)
+Definition nonempty (c : list Z) : bool := match c with [] => false | _ => true end.
+(* repaired code: {s for s in self._get_sample_sets().values() if len(s) > 0} *)
+Definition clades_code (p : list Z) (samples : list Z) : list (list Z) :=
+  filter nonempty (clades_code_pinned p samples).
+(* the documented notion: bipartitions of the samples = distinct non-empty sample sets
+   below the nodes of the tree *)
 Definition clades_spec (p : list Z) (samples : list Z) : list (list Z) :=
-  filter (fun c => match c with [] => false | _ => true end) (clades_code p samples).
+  ldedup (filter nonempty (map (clade p samples) (filter (in_tree p samples) (zseq (length p))))).
 
 Definition symdiff (a b : list (list Z)) : Z :=
   Z.of_nat (length (filter (fun x => negb (existsb (zlist_eqb x) b)) a)
             + length (filter (fun x => negb (existsb (zlist_eqb x) a)) b)).
 
 Definition rf_code (p1 p2 samples : list Z) : Z := symdiff (clades_code p1 samples) (clades_code p2 samples).
+Definition rf_code_pinned (p1 p2 samples : list Z) : Z :=
+  symdiff (clades_code_pinned p1 samples) (clades_code_pinned p2 samples).
 Definition rf_spec (p1 p2 samples : list Z) : Z := symdiff (clades_spec p1 samples) (clades_spec p2 samples).
